@@ -18,6 +18,7 @@ import (
 	"strings"
 	"time"
 
+	"github.com/ipfs/go-cid"
 	"github.com/ipld/go-ipld-prime"
 	"github.com/ipld/go-ipld-prime/codec/dagcbor"
 	"github.com/ipld/go-ipld-prime/codec/dagjson"
@@ -350,6 +351,86 @@ func runGuarded(ep entryPoint, in []byte, deadline time.Duration) (outcome strin
 	}
 }
 
+// depAlloc measures what go-ipld-prime's decoders allocate on the input, read the ways the entry points read it: the
+// whole input as DAG-CBOR and as DAG-JSON, the base64-decoded input, the sections of a CAR (header and block data),
+// and byte strings nested in a decoded container (the tokens).  The sum is an upper estimate of the share of a
+// call's allocations that the library does not control.
+func depAlloc(in []byte) int64 {
+	var total int64
+	measure := func(f func()) {
+		var a, b runtime.MemStats
+		runtime.ReadMemStats(&a)
+		func() {
+			defer func() { recover() }()
+			f()
+		}()
+		runtime.ReadMemStats(&b)
+		total += int64(b.TotalAlloc-a.TotalAlloc) / 1024
+	}
+	var asCbor func(b []byte, depth int)
+	asCbor = func(b []byte, depth int) {
+		var n ipld.Node
+		measure(func() { n, _ = ipld.Decode(b, dagcbor.Decode) })
+		if n == nil || depth <= 0 {
+			return
+		}
+		// the tokens of a CBOR container: byte strings in a list in a map
+		if n.Kind() == datamodel.Kind_Map {
+			for it := n.MapIterator(); !it.Done(); {
+				_, v, err := it.Next()
+				if err != nil {
+					break
+				}
+				if v.Kind() == datamodel.Kind_List {
+					for li := v.ListIterator(); !li.Done(); {
+						_, e, err := li.Next()
+						if err != nil {
+							break
+						}
+						if bs, err := e.AsBytes(); err == nil {
+							asCbor(bs, depth-1)
+						}
+					}
+				}
+			}
+		}
+	}
+	sections := func(b []byte) {
+		r := bytes.NewReader(b)
+		for k := 0; k < 64; k++ {
+			l, err := binary.ReadUvarint(r)
+			if err != nil || l == 0 || l > uint64(r.Len()) {
+				// a section longer than the input: the reader still allocates what was announced (up to its cap)
+				return
+			}
+			sec := make([]byte, l)
+			io.ReadFull(r, sec)
+			asCbor(sec, 0)
+			if n, _, err := cid.CidFromBytes(sec); err == nil && n < len(sec) {
+				asCbor(sec[n:], 0)
+			}
+		}
+	}
+	for _, cand := range [][]byte{in, func() []byte {
+		d, err := base64.StdEncoding.DecodeString(strings.TrimSpace(string(in)))
+		if err != nil {
+			// the streaming decoder hands over what it could decode before the damage
+			d2 := make([]byte, base64.StdEncoding.DecodedLen(len(in)))
+			n, _ := base64.StdEncoding.Decode(d2, in)
+			return d2[:n]
+		}
+		return d
+	}()} {
+		if len(cand) == 0 {
+			continue
+		}
+		asCbor(cand, 1)
+		sections(cand)
+	}
+	measure(func() { ipld.Decode(in, dagjson.Decode) })
+	return total
+}
+
 // ---- hostile but well-signed tokens ----
 
 func deepList(depth int) ipld.Node {
@@ -485,6 +566,12 @@ func hostileContainers() map[string][]byte {
 		m = append(append(m, txt("s")...), txt(bad)...)
 		out[fmt.Sprintf("data-invalid-utf8-%d", i)] = m
 	}
+	// heads that DECLARE 2^20 entries / bytes within go-ipld-prime's allocation budget: the decoder pre-allocates for them
+	// (about 90 MB for the map) whoever calls it; the trace specification accounts for that share separately (dep_kib)
+	out["cbor-map-2^20-declared"] = []byte{0xba, 0x00, 0x10, 0x00, 0x00, 0x61, 'a', 0x01}
+	out["cbor-list-2^20-declared"] = []byte{0x9a, 0x00, 0x10, 0x00, 0x00, 0x01}
+	out["cbor-bytes-2^23-declared"] = []byte{0x5a, 0x00, 0x80, 0x00, 0x00, 0x01}
+	out["cbor-ctn-map-2^20-declared"] = append([]byte{0xa1, 0x66, 'c', 't', 'n', '-', 'v', '1', 0x81}, 0xba, 0x00, 0x10, 0x00, 0x00)
 	out["cbor-nested-arrays"] = bytes.Repeat([]byte{0x81}, 200000)
 	out["cbor-nested-maps"] = bytes.Repeat([]byte{0xa1, 0x61, 'a'}, 100000)
 	out["cbor-nested-tags"] = bytes.Repeat([]byte{0xd8, 0x2a}, 100000)
@@ -508,10 +595,15 @@ func init() {
 			if name != "" {
 				ev["input"] = name
 			}
-			if outcome == "panic" || outcome == "timeout" {
+			if alloc > 4096+int64(len(in)) {
+				// what the DAG-CBOR / DAG-JSON decoder of go-ipld-prime (outside /repo) allocates on this very input:
+				// it pre-allocates from declared lengths up to its fixed budget
+				ev["dep_kib"] = depAlloc(in)
+			}
+			if outcome == "panic" || outcome == "timeout" || alloc > 4096+int64(len(in)) {
 				ev["msg"] = msg
 				if len(in) <= 300 {
-					ev["hex"] = fmt.Sprintf("%x", in)
+					ev["hex"] = fmt.Sprintf("%x", in) // the input, so that the event can be reproduced
 				}
 			}
 			emit(ev)
